@@ -12,7 +12,7 @@
    input  = L [A 2; A fixed; L labels; scenario]     recorded trace of a higher layer, see run_recorded
 *)
 From EN Require Import Lib.Bytes Lib.Sx Frame.Framer Frame.ReadUntil Frame.BufReadUntil Stream.Consumer Stream.Endpoint
-                       Conc.SockReader Conc.BlockRecv Conc.SockEndpoint Conc.SockFlow Gen.ParamsC10.
+                       Conc.SockReader Conc.BlockRecv Conc.SockEndpoint Conc.SockFlow Conc.SockTls Gen.ParamsC10.
 
 Definition dec_label (x : sx) : option label :=
   match x with
@@ -107,6 +107,37 @@ Definition run_endpoint (buffered latching : bool) (size : nat) (ls : list elabe
     let F := ru_framer [10%N] 64 false id_dec in
     L (map enc_eres (eres (erun (copy_smachine F size) false latching (einit (cinit F)) ls))).
 
+(* mode 6: the TLS retry loop (Conc/SockTls.v) against AsyncTLSStreamTransport: recorded trace with
+   L [A 9; A n] = a retry loop starts (handshake: n = 0; recv/recv_into: n = bufsize), the SSL object replaced by the
+   answers the real one gave, in order:  L [A 0; B plaintext] | L [A 1] WantRead | L [A 2] end | L [A 3] SSLError
+   input  = L [A 6; L tlabels; L answers; ...]
+   output = L results;  L [A 0; B plaintext] | L [A 1] cancelled | L [A 2] end of stream | L [A 3; A e] | L [A 4] | L [A 9] *)
+Definition dec_tlabel (x : sx) : option tlabel :=
+  match x with
+  | L [A 9%Z; n] => option_map TRecv (as_nat n)
+  | _ => option_map TSock (dec_label x)
+  end.
+Definition dec_sslans (x : sx) : option sslans :=
+  match x with
+  | L [A 0%Z; B p] => Some (SOk p)
+  | L [A 1%Z] => Some SWantRead
+  | L [A 2%Z] => Some SEnd
+  | L [A 3%Z] => Some SFail
+  | _ => None
+  end.
+Definition enc_tres (r : tresult) : sx :=
+  match r with
+  | TPlain p => L [A 0; B p]
+  | TCancelled => L [A 1]
+  | TEnd => L [A 2]
+  | TError e => L [A 3; A (errk_code e)]
+  | TSslError => L [A 4]
+  | TCrash => L [A 9]
+  end%Z.
+Definition run_tls (ls : list tlabel) (answers : list sslans) : sx :=
+  let ts := trun oracle_read (fun o _ => o) (fun o => o) 262144 (tinit answers) ls in
+  L [L (map enc_tres (tres ts)); of_nat (length (tfed ts))].
+
 (* mode 5: read flow control (Conc/SockFlow.v) with a small buffer
    input  = L [A 5; A fixed; L [A max_size; A high; A low]; L labels; ...]
    output = L [L (L [obs; A paused]); B delivered; B returned]   (room of a read event into the protocol's buffer = max_size - fill) *)
@@ -144,6 +175,10 @@ Definition run (i : sx) : sx :=
       do buffered <- as_bool bf;
       do ls <- as_list_of dec_elabel lbls;
       run_endpoint buffered (Z.eqb layer 0) (Z.to_nat size) ls
+  | L (A 6%Z :: lbls :: answers :: _) =>
+      do ls <- as_list_of dec_tlabel lbls;
+      do ans <- as_list_of dec_sslans answers;
+      run_tls ls ans
   | L (A 5%Z :: fx :: L [A mx; A hi; A lo] :: lbls :: _) =>
       do fixed <- (match fx with A 2%Z => Some repo_fixed | _ => as_bool fx end);
       do ls <- as_list_of dec_label lbls;
